@@ -993,10 +993,13 @@ func errorSwallowed(p *Prog, f *ssa.Function, call *ssa.Call) (bool, string) {
 		}
 	}
 	if !checked {
-		// returned directly?
+		// returned directly? then no success exit may be reachable from the call without the
+		// error having been looked at ("v, e2 := f(); if err != nil { return e2 }; return v, nil"
+		// tests another, already-nil variable)
+		forwarded := false
 		for _, ref := range *ev.Referrers() {
 			if _, ok := ref.(*ssa.Return); ok {
-				return false, ""
+				forwarded = true
 			}
 		}
 		for _, u := range users {
@@ -1005,11 +1008,37 @@ func errorSwallowed(p *Prog, f *ssa.Function, call *ssa.Call) (bool, string) {
 			}
 			for _, ref := range *u.Referrers() {
 				if _, ok := ref.(*ssa.Return); ok {
-					return false, ""
+					forwarded = true
 				}
 			}
 		}
-		return true, p.instrPos(call)
+		if !forwarded {
+			return true, p.instrPos(call)
+		}
+		if ei := errResultIndex(f); ei >= 0 {
+			seen, _ := reach(f, call.Block(), nil, nil)
+			for _, rt := range returns(f) {
+				if !seen[rt.Block()] || ei >= len(rt.Results) {
+					continue
+				}
+				if rt.Block() == call.Block() {
+					// the return after the call in its own block
+					after := false
+					for _, in := range call.Block().Instrs {
+						if in == ssa.Instruction(call) {
+							after = true
+						}
+					}
+					if !after {
+						continue
+					}
+				}
+				if exitKind(rt) == ExitSuccess {
+					return true, p.instrPos(rt)
+				}
+			}
+		}
+		return false, ""
 	}
 	return false, ""
 }
